@@ -379,9 +379,14 @@ func raceChannel(ov *raceOverlap, scripts [][]int) {
 				d := ov.enter("Done")
 				_ = ch.Done()
 				d()
-			default:
+			case op < 97:
 				d := ov.enter("Close")
 				_ = ch.Close()
+				d()
+			default:
+				// the Channel is closed by cancelling the context it was built on, while the others carry on
+				d := ov.enter("cancel-parent")
+				cancel()
 				d()
 			}
 		}
@@ -628,6 +633,41 @@ func raceContext(ov *raceOverlap, scripts [][]int) {
 				d()
 			case 1:
 				d := ov.enter("ConflatedContext")
+				if op%3 == 0 {
+					// fresh inputs, one of which is cancelled by another goroutine while the combinator is being built
+					n := 3 + op%6
+					fresh := make([]context.Context, n)
+					cancels := make([]context.CancelFunc, n)
+					for i := range fresh {
+						fresh[i], cancels[i] = context.WithCancel(context.Background())
+					}
+					var cw sync.WaitGroup
+					cw.Add(1)
+					go func() {
+						defer cw.Done()
+						raceYield(op % 5)
+						cancels[(op/3)%2]()
+					}()
+					var c context.Context
+					var cancel context.CancelFunc
+					if op%2 == 0 {
+						c, cancel = bigbuff.ConflatedContext(fresh...)
+					} else {
+						c, cancel = bigbuff.CombineContext(fresh[0], fresh[1:]...), func() {}
+					}
+					_ = c.Err()
+					cw.Wait()
+					for _, cn := range cancels {
+						cn()
+					}
+					select {
+					case <-c.Done():
+					case <-time.After(time.Second): // not this property's business (C16)
+					}
+					cancel()
+					d()
+					continue
+				}
 				c, cancel := bigbuff.ConflatedContext(a.ctx, b.ctx)
 				_ = c.Err()
 				if op%2 == 0 {
